@@ -321,7 +321,7 @@ def c20(ver):
     outdir = vd.scratch_dir()
     sizes = [1 << 12, 1 << 14, 1 << 16] if ver.tier == "quick" else [1 << 12, 1 << 14, 1 << 16, 1 << 18, 1 << 20]
     fams = list(range(61))
-    bks = [1, 3] if ver.tier == "quick" else [1, 2, 3]
+    bks = [1, 2, 3]   # AVX2, SSE4.2, scalar forced in turn
     jobs = [(f, n, b) for f in fams for n in sizes for b in bks]
     with ThreadPoolExecutor(max_workers=NCPU) as ex:
         cg = list(ex.map(lambda j: callgrind_ir(binp, j[0], j[1], j[2], outdir), jobs))
